@@ -105,6 +105,15 @@ def run(ck):
     helper_q = None
     for side, names, src, tgt in (("1", only1, D1, D2), ("2", only2, D2, D1)):
         elt, it, ifs, part = kinds[names[0]]
+        if it == ("mcall", src, "items", (), ()):
+            # the selection written in place: [only(a) for k, a in D.items() if k not in other]
+            bvs = [x for x in T.subterms(part) if x[0] == "bv"]
+            okin = bool(bvs) and list(ifs) == [("notin", T.mk_idx(bvs[0], C(0)), tgt)] and \
+                [v for _, v in elt[3]] == [T.mk_idx(bvs[0], C(1))]
+            ck.judge(okin, "C19.1", short(cmp_fn) + f":only{side}", w,
+                     f"{names[0]} rows = alignments whose key is in set {side} and not in the other set",
+                     found=T.show(part)[:200], required=f"[only(a) for k, a in D{side}.items() if k not in D{'2' if side == '1' else '1'}]")
+            continue
         if it[0] != "app":
             raise AnalysisError(f"{w}: source of the {names[0]} rows not recognised: {T.show(it)[:120]}")
         helper_q = it[1]
@@ -115,9 +124,9 @@ def run(ck):
                  f"{names[0]} rows = alignments whose key is in set {side} and not in the other set",
                  found=f"source={T.show(a_src)[:60] if a_src else None}, target={T.show(a_tgt)[:60] if a_tgt else None}",
                  required=f"notMatching(D{side}, D{'2' if side == '1' else '1'})")
-    helper = p.get_function(helper_q)
-    hps = [V(pp.name) for pp in helper.call_params()]
-    for pa in explore(ck, helper):
+    helper = p.get_function(helper_q) if helper_q else None
+    hps = [V(pp.name) for pp in helper.call_params()] if helper else []
+    for pa in (explore(ck, helper) if helper else ()):
         if pa.outcome != "return":
             continue
         hv = pa.value
@@ -286,8 +295,8 @@ def run(ck):
         if pa.outcome == "return":
             v2 = pa.value
             inner = v2[2][0] if v2[0] == "call" and v2[1] == "sorted" and v2[2] else v2
-            okd = inner[0] == "mcall" and inner[2] == "difference" and inner[1] == T.mk_call("set", [V("pairs")]) and \
-                inner[3] == (T.mk_call("set", [V("otherPairs")]),)
+            from ..rules.common import set_difference
+            okd = set_difference(inner) == (V("pairs"), V("otherPairs"))
             ck.judge(bool(okd), "C19.3", short(dif_fn), where(dif_fn, pa.node), "difference = pairs of this side that the other side lacks",
                      found=T.show(v2)[:160], required="set(pairs) - set(otherPairs)")
     n = R.run_role_rule(ck, "C19.1", modules={"src.diagnostic.alignment_comparer", "src.compare_alignments"})
